@@ -461,6 +461,10 @@ class TBRMatchedMarkets:
     Returns:
       False if any specified constraint is not satisfied.
     """
+    if not treatment_geos or not control_geos:
+      # A design needs at least one geo in each group.
+      return False
+
     if self.parameters.volume_ratio_tolerance is not None:
       volume_ratio = (
           self.data.aggregate_geo_share(control_geos)/
